@@ -54,6 +54,7 @@ class World:
             f, n, nm = self.model.precondition_lost[0]
             raise core.AnalysisError(f"analysis precondition lost: reflective call {nm}() in {f} line {n.lineno}")
         self.reach = self.model.reachable(self.roots)
+        self.unknown_decorators = [(f, d) for f, d in self.model.unknown_decorators() if f in self.model.reachable(self.roots)]
         ctx.analysed.update({"modules": st["modules"], "functions": st["functions"], "classes": st["classes"], "call_sites": st["call_sites"],
                              "unresolved_call_sites": st["unresolved_call_sites"], "api_roots": self.roots,
                              "api_reachable_functions": len(self.reach), "summary_rounds": self.eff.rounds})
